@@ -10,7 +10,7 @@ RULE = ("self-describing scripts judged against a Python destructuring reference
         "(thorough) plus a sample of width 3..4, against sources of length 0..5 whose nested slots fit or are perturbed (wrong "
         "length, wrong kind, missing property); object patterns (shorthand, rename, `_`, nested list/object, `..rest`) of "
         "width <= 3 / <= 4 over identifier and non-identifier keys against sources of 0..5 properties; each in declaration, "
-        "assignment, `for`-target, anonymous-parameter and named-parameter position. Stream `shape`: the shape errors (non-list "
+        "assignment, `for`-target, anonymous-parameter and named-parameter position. Stream `dup-names`: random patterns in which one bound name (plain, nested, or the name of a list / object `..rest`) is renamed to another name of the same pattern, in every position (in assignment position only the once-per-pattern rule can reject it). Stream `for-targets`: the `for` target itself as a list pattern of width 0..3 (slots name, `_`, nested list / object with and without rest) with and without `..rest`, and with a spread marker on one slot, against lists, objects and strings of 0..2 elements; the rest of one iteration is mutated to show it is a list of that iteration only. Stream `shape`: the shape errors (non-list "
         "/ non-object sources, spread in a pattern, collect in an expression, collect not last, name bound twice, literal as "
         "target). Stream `calls`: arities 0..4 with and without a rest parameter x every split of an argument list of length "
         "0..4 (quick) / 0..5 (thorough) into plain and spread arguments (empty spreads included), `f(xs..)` against "
@@ -395,6 +395,148 @@ def obj_sources(p, rng):
     return out
 
 
+def all_name_sites(p, path=()):
+    """paths of the places where a plain name is bound: ("name" nodes and rest names)"""
+    k = p[0]
+    out = []
+    if k == "name":
+        return [path]
+    if k == "skip":
+        return []
+    if k == "list":
+        for i, x in enumerate(p[1]):
+            out += all_name_sites(x, path + (i,))
+    else:
+        for i, it in enumerate(p[1]):
+            if it[0] == "pair":
+                out += all_name_sites(it[2], path + (i,))
+    if p[2]:
+        out.append(path + ("rest",))
+    return out
+
+
+def rename_site(p, path, new):
+    k = p[0]
+    if not path:
+        return ("name", new)
+    if path[0] == "rest":
+        return (k, p[1], new)
+    i = path[0]
+    if k == "list":
+        items = list(p[1])
+        items[i] = rename_site(items[i], path[1:], new)
+        return (k, items, p[2])
+    items = list(p[1])
+    it = items[i]
+    items[i] = ("pair", it[1], rename_site(it[2], path[1:], new))
+    return (k, items, p[2])
+
+
+def dup_variant(p, rng):
+    """the same pattern with one bound name (possibly a rest name, possibly nested) renamed to another name of the
+    pattern: the name is then bound twice"""
+    sites = all_name_sites(p)
+    names = p_names(p)
+    if len(sites) < 1 or len(set(names)) < 2:
+        return None
+    site = rng.choice(sites)
+    cur = p_names(rename_site(p, site, "\0"))
+    others = sorted(set(n for n in cur if n != "\0"))
+    if not others:
+        return None
+    return rename_site(p, site, rng.choice(others))
+
+
+def dup_scripts(rng, n):
+    """patterns that bind one name twice, against sources that fit the shape, in every position"""
+    out = []
+    tries = 0
+    while len(out) < n * len(POSITIONS) and tries < n * 20:
+        tries += 1
+        if rng.random() < 0.5:
+            w = rng.randrange(1, 4)
+            slots = [slot_choices(None, i)[rng.randrange(12)] for i in range(w)]
+            p = ("list", slots, rng.choice([None, "rest"]))
+        else:
+            p = rng.choice(obj_patterns(rng.randrange(1, 4), rng, 1))
+        q = dup_variant(p, rng)
+        if q is None:
+            continue
+        srcv = fit_value(p, rng, [0])
+        for pos in POSITIONS:
+            out.append(script_for(q, srcv, pos, extra_tags=("dup",)))
+    return out
+
+
+# ---------------------------------------------------------------------------- the for-target is a pattern of its own
+def for_target_scripts(rng, thorough):
+    """`for P in it` binds P to the fresh pair [key, value] of every iteration: list patterns of every width (0..3)
+    with and without `..rest`, with a spread marker (an error), nested, against lists, objects and strings"""
+    out = []
+    slot_kinds = [0, 1, 2, 4, 7, 9]            # name, `_`, [a], [a, ..r], {k}, {k, ..r}
+    iterables = []
+    for w in range(0, 4):
+        for combo in itertools.product(slot_kinds, repeat=w):
+            if not thorough and w == 3 and rng.random() < 0.6:
+                continue
+            slots = [slot_choices(None, i)[c] for i, c in enumerate(combo)]
+            for rest in (None, "rest"):
+                p = ("list", slots, rest)
+                vfit = fit_value(slots[1], rng, [10]) if w >= 2 else 5
+                its = [[vfit, vfit], {"k1": vfit, "k 2": vfit}, [], "xy", [vfit]]
+                if w >= 2 and slots[1][0] in ("list", "obj"):
+                    its.append([vfit, perturb(vfit, rng)])
+                for it in its:
+                    out.append(for_script(p, it, None))
+                if w >= 1:
+                    out.append(for_script(p, [vfit, vfit], rng.randrange(w)))
+    return out
+
+
+def for_script(p, it, spread_at):
+    sc = L.Script()
+    sc.stmt("it := " + L.lit(it))
+    pt = p_text(p)
+    if spread_at is not None:
+        items = [p_text(x) for x in p[1]]
+        items[spread_at] += ".."
+        if p[2]:
+            items.append(".." + p[2])
+        pt = "[" + ", ".join(items) + "]"
+    if isinstance(it, dict):
+        pairs = [[k, it[k]] for k in sorted(it, key=L.key_order)]
+    elif isinstance(it, str):
+        pairs = [[i, c] for i, c in enumerate(it)]
+    else:
+        pairs = [[i, x] for i, x in enumerate(it)]
+    names = list(dict.fromkeys(p_names(p)))
+    body = " ".join(f"print({n});" for n in names) + " print(\"-\");"
+    if p[2]:
+        body += f" {p[2]} += [1];"              # the rest is a list of this iteration only
+    stmt = f"for {pt} in it {{ {body} }}"
+    err = None
+    for pair in pairs:
+        env = {}
+        try:
+            if spread_at is not None:
+                raise BindError("spread marker in a for-target")
+            bind(p, pair, env, set())
+        except BindError as e:
+            err = str(e)
+            break
+        for n in names:
+            sc.expect(env[n])
+        sc.expect("-")
+    if err:
+        sc.fail(stmt, err)
+    else:
+        sc.stmt(stmt)
+        sc.stmt("print(it)")
+        sc.expect(it)
+    sc.tags = ["for-target", pt, type(it).__name__ + str(len(it)), "ok" if not err else "err:" + err.split(":")[0][:30]]
+    return sc.source({"tags": sc.tags})
+
+
 def pattern_parts(rng, thorough):
     """yields the pattern stream in slices (lists of scripts), to bound memory"""
     def scripts_of(pats, sources, all_pos):
@@ -459,6 +601,17 @@ def shape_scripts():
         (["src := {\"a\": 1, \"b\": 2}"], "{a, \"b\": a} := src", "name bound twice"),
         (["src := {\"a\": 1, \"b\": 2}"], "{a, ..a} := src", "name bound twice"),
         (["src := [1, 2]", "a := 0"], "[a, a] = src", "name bound twice"),
+        (["src := [1, 2]", "a := 0"], "[a, ..a] = src", "name bound twice (list collect)"),
+        (["src := {\"a\": 1, \"b\": 2, \"c\": 3}", "a := 0"], "{a, ..a} = src", "name bound twice (object collect)"),
+        (["src := {\"a\": 1, \"b\": 2}", "a := 0"], "{\"b\": a, ..a} = src", "name bound twice (object collect)"),
+        (["src := [1, {\"b\": 2, \"c\": 3}]", "a := 0", "b := 0"], "[a, {b, ..a}] = src", "name bound twice (nested object collect)"),
+        (["src := {\"p\": [1], \"q\": 2}", "a := 0"], "{\"p\": [a], ..a} = src", "name bound twice (nested, object collect)"),
+        (["src := [[1, 2], 3]", "a := 0"], "[[..a], a] = src", "name bound twice (nested list collect)"),
+        (["src := [1, [2, 3]]", "a := 0"], "[a, [_, ..a]] = src", "name bound twice (nested list collect)"),
+        (["src := {\"a\": 1, \"b\": 2}", "a := 0"], "{a, \"b\": a} = src", "name bound twice"),
+        (["src := [\"x\", \"y\"]"], "for [i.., item] in src { print(item); }", "spread marker in a for-target"),
+        (["src := [\"x\", \"y\"]"], "for [i, item..] in src { print(item); }", "spread marker in a for-target"),
+        (["src := {\"k\": 1}"], "for [k..] in src { print(k); }", "spread marker in a for-target"),
         (["src := [1]"], "[1] := src", "literal as a target"),
         (["src := [1]", "a := 0"], "[a + 1] = src", "operation as a target"),
         (["src := {\"a\": 1}"], "{\"a\": 2} := src", "literal as a target"),
@@ -481,6 +634,10 @@ def shape_scripts():
         out.append(sc.source({"tags": sc.tags}))
     # the same things that are fine: `_` may repeat, computed keys, empty patterns
     fine = [
+        (["for [i, ..rest] in [\"x\", \"y\"] { print(rest); }"], [["x"], ["y"]]),
+        (["for [..rest] in {\"k\": 1} { print(rest); }", "print(0)"], [["k", 1], 0]),
+        (["for [i, v, ..rest] in \"ab\" { print([i, v, rest]); }", "print(0)"], [[0, "a", []], [1, "b", []], 0]),
+        (["a := 0", "r := 0", "{a, ..r} = {\"a\": 1, \"b\": 2}", "print([a, r])"], [[1, {"b": 2}]]),
         (["src := [1, 2]", "[_, _] := src", "print(src)"], [[1, 2]]),
         (["src := [1, 2]", "[] := []", "[..r] := src", "print(r)", "print(r === src)"], [[1, 2], False]),
         (["src := {\"a\": 1, \"b\": 2}", "{..r} := src", "print(r)", "print(r == src)", "print(r === src)"],
@@ -500,7 +657,7 @@ def shape_scripts():
             sc.stmt(s)
         for o in outs:
             sc.expect(o)
-        sc.tags = ["shape", lines[-2][:30], "ok"]
+        sc.tags = ["shape", lines[max(0, len(lines) - 2)][:30], "ok"]
         out.append(sc.source({"tags": sc.tags}))
     return out
 
@@ -649,5 +806,7 @@ def run(ctx, model_ok):
             t = (L.prediction(s) or {}).get("tags", ["?", "?", "?"])
             ctx.dist("position:" + str(t[0]))
             ctx.dist("bind:" + ("ok" if t[2] == "ok" else "err:" + str(t[2])[4:].lstrip("0123456789 ")[:40]))
+    L.run_stream(ctx, "dup-names", dup_scripts(rng, 4000 if thorough else 500), model_ok, classify=classify)
+    L.run_stream(ctx, "for-targets", for_target_scripts(rng, thorough), model_ok, classify=classify)
     L.run_stream(ctx, "shape", shape_scripts(), model_ok, classify=classify)
     L.run_stream(ctx, "calls", call_scripts(rng, thorough), model_ok, classify=classify)
